@@ -58,7 +58,9 @@ class TypeEnv:
                 return ("seq", self._p(args[0]))
             if head in ("set", "Set", "frozenset", "FrozenSet"):
                 return ("set", self._p(args[0]))
-            if head in ("dict", "Dict", "Map", "map", "defaultdict", "Mapping"):
+            if head == "defaultdict":
+                return ("map", self._p(args[0]), self._p(args[1]), "default")
+            if head in ("dict", "Dict", "Map", "map", "Mapping"):
                 return ("map", self._p(args[0]), self._p(args[1]))
             if head in ("tuple", "Tuple"):
                 return ("tuple", tuple(self._p(a) for a in args))
@@ -240,7 +242,9 @@ def mk_sym(st, tenv: TypeEnv, t, name: str, depth=0) -> V:
             val = z3.Const(st.fresh_name(name + ".val"), z3.ArraySort(sort_of_type(kt), sort_of_type(elem_type(vt))))
         st.heap[(ref, "val")] = val
         st.input_terms[name + ".val"] = val
-        return VMap(ref, kt, vt)
+        m = VMap(ref, kt, vt)
+        m.default = len(t) > 3
+        return m
     if k == "hmap":
         from .loops import VHMap
         ref = st.new_ref()
